@@ -34,8 +34,18 @@ func (g *G) query(top bool) {
 			g.p(")")
 		})
 	}
-	bareFrom := g.setExpr(top)
-	if !bareFrom && g.opt() {
+	bareFrom, needSuffix := g.setExpr(top)
+	wantOrder, wantLimit := false, false
+	if needSuffix {
+		// a parenthesised first operand inside parentheses is a sub-query only when a set operator,
+		// ORDER BY or LIMIT follows it: force one of the latter two here
+		if g.opt() {
+			wantOrder = true
+		} else {
+			wantLimit = true
+		}
+	}
+	if !bareFrom && (wantOrder || !needSuffix && g.opt()) {
 		g.kw("ORDER", "BY")
 		g.list(func() {
 			g.Expr()
@@ -55,7 +65,7 @@ func (g *G) query(top bool) {
 			}
 		})
 	}
-	if !bareFrom && g.opt() {
+	if !bareFrom && (wantLimit || !needSuffix && g.opt()) {
 		g.kw("LIMIT")
 		g.intValue()
 		if g.opt() {
@@ -108,9 +118,15 @@ func (g *G) pipeOp() {
 
 // setExpr reports whether it emitted a bare FROM query (ORDER BY / LIMIT must not follow it directly:
 // "ORDER BY not supported after FROM query; use |> ORDER BY or parentheses").
-func (g *G) setExpr(top bool) (bareFrom bool) {
+func (g *G) setExpr(top bool) (bareFrom, needSuffix bool) {
+	parenFirst := false
 	if top {
 		bareFrom = g.simpleQuery()
+	} else if g.opt() {
+		g.p("(")
+		g.Query()
+		g.p(")")
+		parenFirst = true
 	} else {
 		g.selectStmt()
 	}
@@ -119,7 +135,7 @@ func (g *G) setExpr(top bool) (bareFrom bool) {
 	}
 	k := g.alt(4)
 	if k == 0 {
-		return
+		return false, parenFirst
 	}
 	op := []string{"UNION", "INTERSECT", "EXCEPT"}[k-1]
 	q := []string{"ALL", "DISTINCT"}[g.alt(2)]
@@ -467,4 +483,11 @@ func (g *G) QueryStatement() {
 
 func init() {
 	root("query", "query", func(g *G) { g.QueryStatement() })
+	// focused roots: the same productions with a fixed minimal context, so that their own
+	// alternatives are reached with few deviations
+	root("from_clause", "query", func(g *G) { g.kw("SELECT"); g.p("*"); g.kw("FROM"); g.nest(g.tableExpr) })
+	root("select_list", "query", func(g *G) { g.kw("SELECT"); g.nest(g.selectBody); g.kw("FROM"); g.plainID() })
+	root("subquery_expr", "expr", func(g *G) { g.p("("); g.Query(); g.p(")") })
+	root("call_expr", "expr", func(g *G) { g.nest(g.call) })
+	root("postfix_expr", "expr", func(g *G) { g.nest(g.postfix) })
 }
